@@ -95,6 +95,25 @@ var nestLib = func() *ast.KnowledgeLibrary {
 }()
 var nestMu sync.Mutex
 
+var preLib = func() *ast.KnowledgeLibrary {
+	lib := ast.NewKnowledgeLibrary()
+	must(builder.NewRuleBuilder(lib).BuildRuleFromResource("pre", "1", pkg.NewBytesResource([]byte(
+		`rule Pre { when F.X > 1000000 && F.Y < -5 then Retract("Pre"); }`))))
+	return lib
+}()
+
+func preRun(dc ast.IDataContext) {
+	nestMu.Lock()
+	kb, err := preLib.NewKnowledgeBaseInstance("pre", "1")
+	nestMu.Unlock()
+	if err != nil {
+		panic(err)
+	}
+	if err := (&engine.GruleEngine{MaxCycle: 2}).Execute(dc, kb); err != nil {
+		panic("pre-run on the shared data context: " + err.Error())
+	}
+}
+
 func nestedRun(eng *engine.GruleEngine) {
 	nestMu.Lock()
 	kb, err := nestLib.NewKnowledgeBaseInstance("nest", "1")
@@ -298,6 +317,11 @@ func runCall(c *Case, ci int, kb *ast.KnowledgeBase, em *Emitter, watchdog time.
 	cc := &c.Calls[ci]
 	w := cc.World.Clone()
 	dc := w.DataContext()
+	if c.Variant == "sharedctx" {
+		// the caller's data context has been used before, with ANOTHER knowledge base (a rule set that matches nothing):
+		// the built-in functions it carries must now serve this one
+		preRun(dc)
+	}
 	ctx, cancel := context.WithCancel(context.Background())
 	defer cancel()
 	if cc.Deadline {
